@@ -213,3 +213,8 @@ pub assume_specification<T: Clone>[ <[T]>::to_vec ](s: &[T]) -> (r: Vec<T>)
     ensures
         r@ =~= s@,
 ;
+
+pub assume_specification[ i8::unsigned_abs ](x: i8) -> (r: u8)
+    ensures
+        r as int == (if x >= 0 { x as int } else { -(x as int) }),
+;
